@@ -14,6 +14,7 @@ import hashlib, json, os, re, sqlite3, time
 from common import Check, run_lines, shrink, REPO, VERIF
 from xvcbin import Sandbox
 import pipe_common as pc
+import c14_strings as cs
 
 INV = {None: '-', 'by_dependencies': 'd', 'always': 'a', 'never': 'n'}
 INV_JSON = {'ByDependencies': 'd', 'Always': 'a', 'Never': 'n'}
@@ -196,7 +197,7 @@ def gen_scenario(rng, idx, runnable):
         src = rng.choice(live)
         dst = fresh.pop()
         fmt = rng.choice(['json', 'yaml'])
-        via = rng.choice(['file', 'file', 'stdin'])
+        via = rng.choice(['file', 'file', 'stdin', 'pipe'])
         ops.append(('roundtrip', src, dst, fmt, via, False))
         live.append(dst)
         r = rng.random()
@@ -209,6 +210,106 @@ def gen_scenario(rng, idx, runnable):
             ops.append(('delete', victim))
             live.remove(victim)
     return {'id': idx, 'runnable': runnable, 'git': rng.random() < 0.15, 'ops': ops}
+
+
+RT_COMBOS = [('yaml', 'file'), ('yaml', 'stdin'), ('yaml', 'pipe'), ('json', 'file'), ('json', 'stdin'), ('json', 'pipe')]
+
+
+def gen_roundtrips(rng, src, taken, n):
+    """n export->import->export probes of `src`, YAML twice as likely as JSON, all three channels"""
+    fresh = [x for x in PIPE_NAMES if x not in taken]
+    rng.shuffle(fresh)
+    combos = rng.sample(RT_COMBOS[:3] * 2 + RT_COMBOS[3:], n)
+    return [('roundtrip', src, fresh.pop(), fmt, via, False) for fmt, via in combos]
+
+
+def gen_cli_strings(rng, idx):
+    """one pipeline built with the real command line; every string field the command line can carry is drawn from the structured
+    string generator (lib/c14_strings.py).  Not run."""
+    p = rng.choice(PIPE_NAMES)
+    ops, names, outs_used = [('new', p, None)], [], set()
+    for _ in range(rng.choice([1, 2, 2, 3])):
+        n = cs.gen_field(rng, 'step_name', 'cli') if rng.random() < 0.5 else rng.choice(STEP_NAMES_PLAIN)
+        if n not in names:
+            names.append(n)
+    for i, s in enumerate(names):
+        ops.append(('step', p, s, cs.gen_field(rng, 'command', 'cli'), rng.choice([None, None, 'always', 'never'])))
+        deps = []
+        for _ in range(rng.choice([0, 1, 2, 3])):
+            k = rng.choice(['Generic', 'Generic', 'SqliteQueryDigest', 'File', 'Param', 'Regex', 'RegexItems', 'Step', 'Lines', 'LineItems'])
+            if k == 'Generic': deps.append(pc.Dep(k, generic_command=cs.gen_field(rng, 'generic', 'cli')))
+            elif k == 'SqliteQueryDigest' and not any(d.variant == k for d in deps):
+                deps.append(pc.Dep(k, path='db.sqlite', query=cs.gen_field(rng, 'query', 'cli')))
+            elif k == 'File': deps.append(pc.Dep(k, path=cs.gen_field(rng, 'path', 'cli')))
+            elif k == 'Param':
+                f = rng.choice(list(PARAM_KEYS))
+                key = cs.gen_field(rng, 'param_key', 'cli')
+                deps.append(pc.Dep(k, path=f, key=key if not key.startswith(':') else 'k' + key))
+            elif k in ('Regex', 'RegexItems'):
+                f = cs.gen_path(rng).split('/')[0].replace(':', '_') if rng.random() < 0.4 else rng.choice(['lines.txt', 'a.txt', 'b c.txt'])
+                deps.append(pc.Dep(k, path=f, regex=cs.gen_field(rng, 'regex', 'cli')))
+            elif k in ('Lines', 'LineItems'):
+                f = cs.gen_path(rng).replace(':', '_') if rng.random() < 0.4 else rng.choice(['lines.txt', 'sub dir/f 1.csv'])
+                deps.append(pc.Dep(k, path=f, begin=rng.choice([0, 1, 5]), end=rng.choice([1, 3, 100])))
+            elif k == 'Step' and len(names) > 1:
+                deps.append(pc.Dep(k, name=rng.choice([x for x in names if x != s])))
+        if deps:
+            ops.append(('dep', p, s, deps))
+        if rng.random() < 0.5:
+            outs = []
+            for _ in range(rng.choice([1, 1, 2])):
+                path = cs.gen_field(rng, 'path', 'cli')
+                if path not in outs_used:
+                    outs_used.add(path)
+                    outs.append(pc.Out(rng.choice(['File', 'File', 'Metric', 'Image']), path))
+            if outs:
+                ops.append(('out', p, s, outs))
+    if rng.random() < 0.3 and names:
+        ops.append(('update', p, rng.choice(names), cs.gen_field(rng, 'command', 'cli'), None))
+    ops += gen_roundtrips(rng, p, [p], rng.choice([2, 3, 3, 4]))
+    return {'id': idx, 'runnable': False, 'git': False, 'ops': ops, 'family': 'cli-strings'}
+
+
+def gen_lines_run(rng, idx):
+    """a pipeline whose line-items / regex-items dependencies record the lines of a generated file (empty lines, whitespace-only
+    lines, trailing blanks, YAML-significant starts, scalars that look like numbers / booleans / null), then round trips"""
+    p = rng.choice(PIPE_NAMES[:6])
+    lines = [rng.choice([cs.gen_line(rng), cs.gen_line(rng), '', rng.choice(cs.WS_ONLY)]) for _ in range(rng.choice([3, 6, 10]))]
+    content = '\n'.join(lines) + rng.choice(['', '\n', '\n\n'])
+    deps = [pc.Dep('LineItems', path='wild.txt', begin=0, end=rng.choice([3, 100])),
+            pc.Dep('RegexItems', path='wild.txt', regex=rng.choice(['^', '.', '^$', '\\s$', '#', '^\\s*$']))]
+    if rng.random() < 0.5: deps.append(pc.Dep('Lines', path='wild.txt', begin=0, end=100))
+    if rng.random() < 0.5: deps.append(pc.Dep('Generic', generic_command=rng.choice(['echo a\n\necho b', 'echo x\n\n', '\n\necho y'])))
+    ops = [('write', 'wild.txt', content), ('new', p, None),
+           ('step', p, 's1', rng.choice(['echo a\n\necho b', 'true\n\n', '\n\ntrue', 'echo a\n \n\techo b'] + COMMANDS_OK), None),
+           ('dep', p, 's1', deps), ('run', p)]
+    ops += gen_roundtrips(rng, p, [p], rng.choice([2, 3]))
+    return {'id': idx, 'runnable': True, 'git': False, 'ops': ops, 'family': 'recorded-lines'}
+
+
+def gen_doc_scenario(rng, idx, order):
+    """a repository state the command line cannot build: a generated document (all dependency kinds with all fields incl. recorded
+    state, strings with arbitrary content in every string field) is imported as JSON, then round trips start from that state"""
+    p = rng.choice(PIPE_NAMES)
+    doc = cs.gen_doc(rng, order, p)
+    ops = [('inject', p, doc)] + gen_roundtrips(rng, p, [p], rng.choice([3, 4, 4, 5]))
+    return {'id': idx, 'runnable': False, 'git': False, 'ops': ops, 'family': 'document'}
+
+
+def scenario_strings(sc):
+    """(kind, string) of every string field a scenario sets through the command line"""
+    out = []
+    for op in sc['ops']:
+        if op[0] == 'step': out += [('step_name', op[2]), ('command', op[3])]
+        elif op[0] == 'update' and op[3] is not None: out.append(('command', op[3]))
+        elif op[0] == 'dep':
+            for d in op[3]:
+                for f, x in d.prim.items():
+                    if isinstance(x, str):
+                        out.append((cs.STRING_FIELD_KIND.get(f, f), x))
+        elif op[0] == 'out': out += [('out_path', o.path) for o in op[3]]
+        elif op[0] == 'write': out += [('file_line', l) for l in op[2].split('\n')]
+    return out
 
 
 def enc_op(op):
@@ -244,6 +345,24 @@ def parse_list(out):
     return rows
 
 
+def dep_cli(d):
+    """pc.Dep.cli() in the `--option=value` form, so that a value beginning with `-` is carried as a value"""
+    a = d.cli()
+    return [a[0] + '=' + a[1]] if len(a) == 2 else a          # --sqlite-query takes two values
+
+
+def out_cli(o):
+    a = o.cli()
+    return [a[0] + '=' + a[1]]
+
+
+def yaml_stdout_ends_in_keep_scalar(text):
+    """`xvc pipeline export --format yaml` to stdout = the document + the newline `output!` adds.  The document ends with more
+    than one newline exactly when its last node is a `|+` block scalar (a File/Image output path of the last step ending with two
+    newlines); the added newline then becomes part of that scalar (proposed known finding K-C14-stdout-keep-scalar)."""
+    return text.endswith('\n\n\n')
+
+
 class Real:
     """executes ops; records per op: rc, and for exports the raw text"""
 
@@ -253,6 +372,7 @@ class Real:
         self.trace = []          # (kind, payload) observations in op order
         self.oracle = []         # oracle failures (strings + detail)
         self.nfile = 0
+        self.counts = {}         # generator / exclusion counters, merged into the evidence by `judge`
 
     def export(self, p, fmt='json', to_file=False):
         if to_file:
@@ -289,28 +409,28 @@ class Real:
                 rc, out, err = sb.x(*a)
                 self.trace.append(('rc', rc == 0, err[-300:]))
             elif k == 'step':
-                a = ['pipeline', '-p', op[1], 'step', 'new', '-s', op[2], '-c', op[3]] + (['--when', op[4]] if op[4] else [])
+                a = ['pipeline', '-p', op[1], 'step', 'new', '--step-name=' + op[2], '--command=' + op[3]] + (['--when', op[4]] if op[4] else [])
                 rc, out, err = sb.x(*a)
                 self.trace.append(('rc', rc == 0, err[-300:]))
             elif k == 'update':
-                a = ['pipeline', '-p', op[1], 'step', 'update', '-s', op[2]] + (['-c', op[3]] if op[3] is not None else []) + \
+                a = ['pipeline', '-p', op[1], 'step', 'update', '--step-name=' + op[2]] + (['--command=' + op[3]] if op[3] is not None else []) + \
                     (['--when', op[4]] if op[4] else [])
                 rc, out, err = sb.x(*a)
                 self.trace.append(('rc', rc == 0, err[-300:]))
             elif k == 'dep':
-                a = ['pipeline', '-p', op[1], 'step', 'dependency', '-s', op[2]]
+                a = ['pipeline', '-p', op[1], 'step', 'dependency', '--step-name=' + op[2]]
                 for d in op[3]:
-                    a += d.cli()
+                    a += dep_cli(d)
                 rc, out, err = sb.x(*a)
                 self.trace.append(('rc', rc == 0, err[-300:]))
             elif k == 'out':
-                a = ['pipeline', '-p', op[1], 'step', 'output', '-s', op[2]]
+                a = ['pipeline', '-p', op[1], 'step', 'output', '--step-name=' + op[2]]
                 for o in op[3]:
-                    a += o.cli()
+                    a += out_cli(o)
                 rc, out, err = sb.x(*a)
                 self.trace.append(('rc', rc == 0, err[-300:]))
             elif k == 'rmstep':
-                rc, out, err = sb.x('pipeline', '-p', op[1], 'step', 'remove', '-s', op[2])
+                rc, out, err = sb.x('pipeline', '-p', op[1], 'step', 'remove', '--step-name=' + op[2])
                 self.trace.append(('rc', rc == 0, err[-300:]))
             elif k == 'delete':
                 rc, out, err = sb.x('pipeline', '-p', op[1], 'delete')
@@ -318,11 +438,27 @@ class Real:
             elif k == 'run':
                 rc, out, err = sb.x('pipeline', '-p', op[1], 'run', timeout=40)
                 self.trace.append(('run', rc, (out + err)[-600:]))
+            elif k == 'write':
+                sb.write(op[1], op[2])
+                self.trace.append(('write',))
+            elif k == 'inject':
+                self.inject(op[1], op[2])
             elif k == 'roundtrip':
                 self.roundtrip(*op[1:])
             elif k == 'refuse':
                 self.refuse(*op[1:])
         return self
+
+    def inject(self, name, doc):
+        """bring the repository into a state the command line cannot build: import a generated document as JSON with --file
+        (serde_json's text has no line structure, `fs::read_to_string` hands it over verbatim)"""
+        self.nfile += 1
+        f = os.path.join(self.sb.base, f'inject{self.nfile}.json')
+        with open(f, 'w', encoding='utf-8') as h:
+            json.dump(doc, h, ensure_ascii=True)
+        rc, out, err = self.sb.x('pipeline', '-p', name, 'import', '--file', f)
+        got = self.export(name, 'json')[1] if rc == 0 else None
+        self.trace.append(('inject', rc, got, err[-300:]))
 
     # -- the oracle proper ------------------------------------------------------------------------
     def fail(self, what, **detail):
@@ -339,12 +475,21 @@ class Real:
             self.trace.append(('roundtrip', None)); return
         other = 'yaml' if fmt == 'json' else 'json'
         x1 = self.export(src, other)[1]       # the other format, for the cross-format comparison
+        feed = text1
+        if via == 'pipe':                  # `xvc pipeline export --format F | xvc pipeline import --format F`
+            rcp, feed, errp, _ = self.export(src, fmt)
+            if rcp != 0 or feed is None:
+                self.fail(f'export of pipeline {src!r} ({fmt}) to stdout failed', rc=rcp, stderr=errp[-400:])
+                self.trace.append(('roundtrip', None)); return
+            if fmt == 'yaml' and yaml_stdout_ends_in_keep_scalar(feed) and not self.sc.get('keep_region'):
+                self.counts['excluded:K-C14-stdout-keep-scalar'] = self.counts.get('excluded:K-C14-stdout-keep-scalar', 0) + 1
+                via, feed = 'stdin', text1
         if via == 'file':
             a = ['pipeline', '-p', dst, 'import', '--file', f1] + (['--overwrite'] if ow else [])
             rc2, out2, err2 = self.sb.x(*a)
         else:
             a = [self.sb.xvc, 'pipeline', '-p', dst, 'import', '--format', fmt] + (['--overwrite'] if ow else [])
-            rc2, out2, err2 = self.sb.run(a, input=text1.encode('utf-8'))
+            rc2, out2, err2 = self.sb.run(a, input=feed.encode('utf-8'))
         existed = dst in names0
         if rc2 != 0:
             if not existed or ow:
@@ -485,7 +630,7 @@ class Mirror:
                 refs = sorted({self.rank_d(d) for d in self.deps if d.variant == 'Step' and d.prim['name'] == op[2]})
                 out.append(f'rmstep {t(op[1])} {t(op[2])} ' + (','.join(map(str, refs)) if refs else '-'))
             elif k == 'delete': out.append(f'delete {t(op[1])}')
-            elif k == 'run': out.append('')
+            elif k in ('run', 'write'): out.append('')
             elif k == 'roundtrip':
                 out += [f'shuf {shuf[i % 3]}', f'export {t(op[1])}', f'import {t(op[2])} {1 if op[5] else 0}', f'shuf {shuf[(i + 1) % 3]}',
                         f'export {t(op[2])}', 'list']
@@ -539,6 +684,8 @@ class Mirror:
                 out.append('ok')          # the model deletes unconditionally; refusals (default / last pipeline) are not generated
             elif k == 'run':
                 ran = True
+                out.append('')
+            elif k == 'write':
                 out.append('')
             elif k == 'roundtrip':
                 o = ob[1]
@@ -617,6 +764,11 @@ def judge(chk, results):
             if op[0] == 'step': chk.count('when:' + str(op[4]))
             if op[0] == 'roundtrip': chk.count(f'roundtrip:{op[3]}:{op[4]}:{"overwrite" if op[5] else "new"}')
         chk.count('scenario:' + ('run' if sc['runnable'] else 'static') + (':git' if sc['git'] else ''))
+        chk.count('family:' + sc.get('family', 'pools'))
+        cs.count_strings(chk, scenario_strings(sc))
+        for k_, n_ in r.counts.items():
+            chk.count(k_, n_)
+        count_blank_roundtrips(chk, sc, r)
         for k, *o in r.trace:
             if k == 'run':
                 chk.count('run:rc=%d' % o[0])
@@ -640,6 +792,160 @@ def judge(chk, results):
     return bad
 
 
+def count_blank_roundtrips(chk, sc, r):
+    """per accepted round trip: does the exported pipeline contain a string with a genuinely empty line (per field kind, format, channel)?"""
+    rops = [op for op in sc['ops'] if op[0] == 'roundtrip']
+    robs = [o for k, *o in r.trace if k == 'roundtrip']
+    for op, o in zip(rops, robs):
+        o = o[0]
+        if not o or not o['import_ok']:
+            continue
+        try:
+            doc = json.loads(json_of(o, 'export1'))
+        except (TypeError, ValueError):
+            continue
+        kinds = sorted({k for k, x in cs.doc_strings(doc) if cs.has_blank(x)})
+        chan = f'{op[3]}:{op[4]}'
+        chk.count(f'roundtrip-strings:{chan}:' + ('with-blank-line' if kinds else 'no-blank-line'))
+        for k in kinds:
+            chk.count(f'blank-line:{k}:{chan}')
+
+
+def judge_docs(chk, results):
+    """document scenarios: oracle as for every round trip; plus `export(import(V)) = V` modulo name and list order (C14_import_export)"""
+    st = chk.tie['streams'].setdefault('documents', {'cases': 0, 'xvc_processes': 0, 'inject_rejected': 0, 'inject_mismatch': 0, 'oracle_failures': 0})
+    bad = []
+    for sc, r, m, got in results:
+        st['cases'] += 1
+        st['xvc_processes'] += len(r.sb.log)
+        chk.evaluations += 1
+        chk.count('family:' + sc.get('family', 'document'))
+        doc = sc['ops'][0][2]
+        cs.count_strings(chk, cs.doc_strings(doc), 'docstr')
+        for s_ in doc['steps']:
+            for d in s_['dependencies']: chk.count('docdep:' + next(iter(d)))
+            for o in s_['outputs']: chk.count('docout:' + next(iter(o)))
+        for op in sc['ops']:
+            chk.count('op:' + op[0])
+            if op[0] == 'roundtrip': chk.count(f'roundtrip:{op[3]}:{op[4]}:{"overwrite" if op[5] else "new"}')
+        for k_, n_ in r.counts.items():
+            chk.count(k_, n_)
+        count_blank_roundtrips(chk, sc, r)
+        inj = next((o for k, *o in r.trace if k == 'inject'), None)
+        if inj is None or inj[0] != 0:
+            st['inject_rejected'] += 1
+            chk.count('inject:rejected')
+            if len([n for n in chk.notes if n.startswith('inject rejected')]) < 3:
+                chk.notes.append(f'inject rejected (generated document not accepted by `import`, scenario skipped): {(inj or [0, 0, ""])[2][-200:]!r}')
+            continue
+        try:
+            same = cs.canon_doc(json.loads(inj[1])) == cs.canon_doc(doc)
+        except (TypeError, ValueError):
+            same = False
+        if not same:
+            st['inject_mismatch'] += 1
+            bad.append(('inject', sc, {'implementation': (inj[1] or '')[:3000], 'model': json.dumps(cs.canon_doc(doc), ensure_ascii=False)[:3000]}))
+        if any(o[0] and o[0]['import_ok'] for k, *o in r.trace if k == 'roundtrip'):
+            chk.nontrivial.add(hashlib.sha1(json.dumps([enc_op(o) for o in sc['ops']], sort_keys=True).encode()).hexdigest())
+        if r.oracle:
+            st['oracle_failures'] += 1
+            bad.append(('oracle', sc, r.oracle))
+    return bad
+
+
+def _doc_leaves(doc):
+    """paths to the string leaves a shrink may simplify"""
+    out = [('workdir',)] if doc.get('workdir') else []
+    for i, s_ in enumerate(doc['steps']):
+        out.append(('steps', i, 'command'))
+        for j, d in enumerate(s_['dependencies']):
+            (v, b), = d.items()
+            for f, x in b.items():
+                if isinstance(x, str) and f not in ('format', 'url'):
+                    out.append(('steps', i, 'dependencies', j, v, f))
+                elif f == 'lines':
+                    out += [('steps', i, 'dependencies', j, v, f, k) for k in range(len(x))]
+        for j, o in enumerate(s_['outputs']):
+            (v, b), = o.items()
+            out.append(('steps', i, 'outputs', j, v, 'path'))
+    return out
+
+
+def _get(doc, path):
+    for k in path:
+        doc = doc[k]
+    return doc
+
+
+def _set(doc, path, val):
+    doc = json.loads(json.dumps(doc))
+    x = doc
+    for k in path[:-1]:
+        x = x[k]
+    x[path[-1]] = val
+    return doc
+
+
+def doc_candidates(sc):
+    """smaller variants of a document scenario, most drastic first"""
+    ops = sc['ops']
+    inj, rts = ops[0], ops[1:]
+    doc = inj[2]
+    out = []
+    if len(rts) > 1:
+        out += [[inj, rt] for rt in rts]
+    D = lambda d: [('inject', inj[1], d)] + list(rts)        # noqa: E731
+    steps = doc['steps']
+    if len(steps) > 1:
+        out += [D(dict(doc, steps=steps[:i] + steps[i + 1:])) for i in range(len(steps))]
+    for i, s_ in enumerate(steps):
+        for key in ('dependencies', 'outputs'):
+            if len(s_[key]) > 0:
+                out.append(D(_set(doc, ('steps', i, key), [])))
+            if len(s_[key]) > 1:
+                out += [D(_set(doc, ('steps', i, key), s_[key][:j] + s_[key][j + 1:])) for j in range(len(s_[key]))]
+    for path in _doc_leaves(doc):
+        x = _get(doc, path)
+        cands = []
+        if path[-1] == 'path' or path == ('workdir',):
+            if x != 'p': cands.append('p')
+        elif x not in ('', 'x'):
+            cands += ['x']
+        ls = x.split('\n')
+        if len(ls) > 2:
+            cands += ['\n'.join(ls[:k] + ls[k + 1:]) for k in range(len(ls))]
+        elif len(x) > 3:
+            cands += [x[:len(x) // 2], x[len(x) // 2:]]
+        for ls_i, l in enumerate(ls):
+            if len(l) > 1:
+                cands.append('\n'.join(ls[:ls_i] + ['y'] + ls[ls_i + 1:]))
+        seen = set()
+        for c in cands:
+            if c != x and c not in seen and (path[-1] != 'path' or cs.path_ok(c)):
+                seen.add(c)
+                out.append(D(_set(doc, path, c)))
+    return out
+
+
+def minimise_doc(chk, xvc, order, base, sc, fails_many, budget=80):
+    """greedy parallel shrinking: evaluate a batch of candidates, take the first that still fails"""
+    t0, rounds = time.time(), 0
+    while time.time() - t0 < budget and rounds < 60:
+        rounds += 1
+        cands = doc_candidates(sc)
+        hit = None
+        for i in range(0, len(cands), 16):
+            batch = cands[i:i + 16]
+            res = fails_many([dict(sc, id=f'{sc["id"]}d{rounds}_{i + j}', ops=ops) for j, ops in enumerate(batch)])
+            hit = next((ops for ops, f in zip(batch, res) if f), None)
+            if hit is not None or time.time() - t0 > budget:
+                break
+        if hit is None:
+            break
+        sc = dict(sc, ops=hit)
+    return sc
+
+
 def signature(failure_texts, sc):
     """decidable facts about a failing scenario, for matching known findings"""
     ops = sc['ops']
@@ -650,7 +956,10 @@ def signature(failure_texts, sc):
     elif 'differs from the export' in txt: sig['kind'] = 'roundtrip-differs'
     elif 'failed' in txt: sig['kind'] = 'command-failed'
     sig['formats'] = sorted({op[3] for op in ops if op[0] == 'roundtrip'})
+    sig['channels'] = sorted({op[4] for op in ops if op[0] == 'roundtrip'})
     sig['after_run'] = any(op[0] == 'run' for op in ops)
+    if sc.get('keep_region') and sig['kind'] == 'roundtrip-differs' and sig['formats'] == ['yaml'] and sig['channels'] == ['pipe']:
+        sig['region'] = 'yaml-stdout-ends-in-keep-scalar'
     return sig
 
 
@@ -717,21 +1026,255 @@ def corpus_nonfinite(chk, xvc, base):
     sb.cleanup()
 
 
+def corpus_scenarios():
+    """fixed scenarios that run before the generated stream (same runner, same oracle, same tie)"""
+    D, O = pc.Dep, pc.Out
+    rts = lambda src, tag, combos: [('roundtrip', src, f'{tag}{i}', f, v, False) for i, (f, v) in enumerate(combos)]     # noqa: E731
+    c = []
+    # seeded C14-1, minimised: a step command and a generic command with an empty line (literal block scalar `|-` with a blank line)
+    c.append({'id': 'corpus-blank-line-in-command', 'runnable': False, 'git': False, 'family': 'corpus', 'ops': [
+        ('new', 'src', None), ('step', 'src', 'report', 'echo a\n\necho b', None),
+        ('dep', 'src', 'report', [D('Generic', generic_command='date +%Y\n\nuname -s')])] + rts('src', 'c', RT_COMBOS)})
+    # trailing blank line (`|+`), leading blank lines (`|2-`), whitespace-only line, only newlines, a query with a blank line, output paths
+    c.append({'id': 'corpus-blank-lines-at-the-ends', 'runnable': False, 'git': False, 'family': 'corpus', 'ops': [
+        ('new', 'src', None), ('step', 'src', 'keep', 'echo a\n\n', None), ('step', 'src', 'lead', '\n\necho b', 'always'),
+        ('step', 'src', 'ws', 'echo a\n  \n\techo b \n', None), ('step', 'src', 'nl', '\n\n', 'never'), ('step', 'src', 'a\n\nb', '', None),
+        ('dep', 'src', 'keep', [D('SqliteQueryDigest', path='db.sqlite', query='select a\n\nfrom t\n\n'), D('File', path='dir\n\nx/f\n'), D('Step', name='a\n\nb')]),
+        ('out', 'src', 'keep', [O('File', 'o\n\nx'), O('Metric', 'm\n\n.json')]), ('out', 'src', 'a\n\nb', [O('Image', '\n\ni.png')])]
+        + rts('src', 'e', RT_COMBOS[:3] + RT_COMBOS[3:4])})
+    return c
+
+
+def corpus_doc_scenarios(order):
+    meta = {'file_type': 'File', 'modified': {'nanos_since_epoch': 1, 'secs_since_epoch': 1790420429}, 'size': 6}
+    dig = {'algorithm': 'Blake3', 'digest': list(range(32))}
+    doc = {'version': 1, 'name': 'src', 'workdir': '', 'steps': [
+        {'name': 'a\n\nb', 'command': 'echo a\n\necho b\n\n', 'invalidate': 'Always', 'dependencies': [
+            {'LineItems': {'path': 'l.txt', 'begin': 0, 'end': 9, 'xvc_metadata': meta, 'lines': ['', '  ', 'x', 'a\n\nb', '\n', 'true', '~', ' # c', 'k: v ']}},
+            {'RegexItems': {'path': 'l.txt', 'regex': '^a\n\nb$', 'lines': ['', '', '- x', '\n\n'], 'xvc_metadata': None}},
+            {'Param': {'format': 'YAML', 'path': 'p.yaml', 'key': 'k\n\nk', 'value': {'Yaml': 'l1\n\nl2\n\n'}, 'xvc_metadata': meta}},
+            {'Param': {'format': 'JSON', 'path': 'p.json', 'key': 'j', 'value': {'Json': {'m': ['\n\n', 'a\n\nb']}}, 'xvc_metadata': None}},
+            {'GlobItems': {'glob': 'g/*', 'xvc_path_metadata_map': {'g/k\n\ny': meta, 'g/z\n\n': meta}, 'xvc_path_content_digest_map': {'g/k\n\ny': dig}}},
+            {'UrlDigest': {'url': 'https://example.com/x', 'etag': 'W/"x"\n\n', 'last_modified': '\n\nMon', 'url_content_digest': dig}},
+            {'Generic': {'generic_command': '\n\n', 'output_digest': dig}}],
+         'outputs': [{'File': {'path': 'o\n\n/p'}}]},
+        {'name': 'z', 'command': '', 'invalidate': 'Never', 'dependencies': [{'Step': {'name': 'a\n\nb'}}], 'outputs': []}]}
+    # keep only the fields this source tree declares, in its order (a new field is a translator failure elsewhere)
+    for s_ in doc['steps']:
+        for d in s_['dependencies']:
+            (v, b), = d.items()
+            d[v] = {f: b.get(f) for f in order['dep_fields'][v]}
+    return [{'id': 'corpus-document-blank-lines', 'runnable': False, 'git': False, 'family': 'corpus-document',
+             'ops': [('inject', 'src', doc)] + [('roundtrip', 'src', f'd{i}', f, v, False) for i, (f, v) in enumerate(RT_COMBOS[:4])]}]
+
+
+def corpus_stdout_keep(chk, xvc, base):
+    """proposed known finding K-C14-stdout-keep-scalar: `xvc pipeline export --format yaml | xvc pipeline import --format yaml` when the last
+    node of the document is a `|+` block scalar (a File/Image output path of the last step that ends with two newlines): `output!` prints the
+    document followed by a newline, which becomes part of that scalar.  The generated stream leaves exactly this region out
+    (`yaml_stdout_ends_in_keep_scalar`); it is judged here."""
+    sc = {'id': 'corpus-stdout-keep-scalar', 'runnable': False, 'git': False, 'keep_region': True, 'family': 'corpus', 'ops': [
+        ('new', 'src', None), ('step', 'src', 's', 'true', None), ('out', 'src', 's', [pc.Out('File', 'o\n\n')]),
+        ('roundtrip', 'src', 'k0', 'yaml', 'pipe', False)]}
+    r = RealJ(chk, xvc, sc, base).run()
+    r.sb.cleanup()
+    chk.evaluations += 1
+    chk.count('corpus:stdout-keep-scalar')
+    if r.oracle:
+        case = {'id': sc['id'], 'runnable': False, 'git': False, 'keep_region': True, 'ops': [enc_op(o) for o in sc['ops']]}
+        chk.oracle_failure(r.oracle[0]['what'], case, {'all': r.oracle[:2]}, signature=signature([f['what'] for f in r.oracle], sc))
+
+
+# ------------------------------------------------------------------------------------------------
+# the reader correspondence: document texts -> (model reader | real reader behind the parser)
+
+YAML_HEAD = 'version: 1\nname: x\nworkdir: ""\nsteps:\n- name: s\n  invalidate: ByDependencies\n  dependencies: []\n  outputs: []\n  command: '
+READER_CORPUS = [   # the witnesses of the C14_reader_*_counterexample theorems, as documents
+    ('cr-cr-lf', 'yaml', (YAML_HEAD + '|-\n    echo a\r\r\n    echo b\n').encode()),
+    ('no-final-newline-clip', 'yaml', (YAML_HEAD + '|\n    echo a').encode()),
+    ('unreadable-comment-line', 'yaml', (YAML_HEAD + '|-\n    echo a\n').encode() + b'# \xff\xfe comment\n'),
+    ('unreadable-line-in-block', 'yaml', (YAML_HEAD + '|-\n    echo a\n').encode() + b'    \xff\n    echo c\n'),
+    ('keep-scalar-at-end', 'yaml', (YAML_HEAD + '|+\n    echo a\n\n\n').encode()),
+    ('crlf-document', 'yaml', (YAML_HEAD + '|-\n    echo a\n\n    echo b\n').replace('\n', '\r\n').encode()),
+    ('lone-cr-at-end', 'yaml', (YAML_HEAD + '|-\n    echo a\r').encode()),
+    ('json-unreadable-line', 'json', b'{"version": 1, "name": "x", "workdir": "",\n\xff\xfe\n "steps": []}'),
+    ('json-crlf', 'json', b'{"version": 1,\r\n "name": "x",\r\n "workdir": "", "steps": []}\r\n'),
+    ('empty-input', 'json', b''),
+]
+
+
+def reader_variants(rng, doc):
+    """document texts for one schema value: (variant, format, channel, bytes, clean text or None)"""
+    out = []
+    ty = cs.emit_yaml(doc, rng)
+    tj = cs.emit_json(doc, rng)
+    out.append(('clean', 'yaml', 'file', ty.encode(), ty))
+    out.append(('clean', 'yaml', 'stdin', ty.encode(), ty))
+    out.append(('clean', 'json', rng.choice(['file', 'stdin']), tj.encode(), tj))
+    v = rng.choice(['crlf', 'crlf', 'no-final-newline', 'unreadable-line', 'unreadable-line'])
+    if v == 'crlf':          # a document saved with Windows line ends
+        f, t = rng.choice([('yaml', ty), ('yaml', ty), ('json', tj)])
+        out.append((v, f, rng.choice(['stdin', 'stdin', 'file']), t.replace('\n', '\r\n').encode(), t))
+    elif v == 'no-final-newline':
+        f, t = rng.choice([('yaml', ty), ('json', tj)])
+        out.append((v, f, rng.choice(['stdin', 'file']), t.rstrip('\n').encode(), t))
+    else:                    # a line that is not valid UTF-8: a YAML comment / between two JSON tokens
+        if rng.random() < 0.6:
+            out.append((v, 'yaml', rng.choice(['stdin', 'stdin', 'file']), b'# \xe9t\xe9 \xff\n' + ty.encode(), ty))
+        else:
+            tj2 = json.dumps(doc, indent=1, ensure_ascii=True)
+            i = tj2.index('\n') + 1
+            out.append((v, 'json', rng.choice(['stdin', 'stdin', 'file']), tj2[:i].encode() + b' \xc3\x28\n' + tj2[i:].encode(), tj2))
+    return out
+
+
+class ReaderCase:
+    def __init__(self, cid, variant, fmt, chan, data, clean, doc):
+        self.cid, self.variant, self.fmt, self.chan, self.data, self.clean, self.doc = cid, variant, fmt, chan, data, clean, doc
+        self.model = None        # the string the model hands to the parser (None: the read fails)
+
+    def enc(self):
+        return {'id': self.cid, 'variant': self.variant, 'format': self.fmt, 'channel': self.chan, 'text': self.data.decode('utf-8', 'backslashreplace'),
+                'bytes_hex': self.data.hex(), 'doc': self.doc}
+
+
+def reader_import(sb, name, fmt, chan, data, nfile):
+    """the real reader behind the parser: import `data`, return (accepted, canonical schema value of what was imported)"""
+    if chan == 'file':
+        f = os.path.join(sb.base, f'r{nfile}.{fmt}')
+        with open(f, 'wb') as h:
+            h.write(data)
+        rc, out, err = sb.x('pipeline', '-p', name, 'import', '--file', f, timeout=30)
+    else:
+        rc, out, err = sb.run([sb.xvc, 'pipeline', '-p', name, 'import', '--format', fmt], input=data, timeout=30)
+    if rc != 0:
+        return False, err[-200:]
+    j = sb.x('pipeline', '-p', name, 'export', '--format', 'json')[1]
+    try:
+        return True, cs.canon_doc(json.loads(j))
+    except ValueError:
+        return True, {'unparsable export': j[:200]}
+
+
+def reader_eval(xvc, base, cases, tag):
+    """run the cases of one sandbox; -> list of (case, implementation, expected, how) that disagree, and counters"""
+    sb = Sandbox(base, f'reader{tag}', xvc)
+    sb.init(git=False)
+    bad, n = [], 0
+    for i, c in enumerate(cases):
+        n += 1
+        ok, got = reader_import(sb, f'r{i}', c.fmt, c.chan, c.data, i)
+        if c.model is None:
+            if ok:
+                bad.append((c, {'accepted': True, 'imported': got}, 'the read fails, nothing is imported', 'reject'))
+            continue
+        anchored = c.clean is not None and c.model in (c.clean, c.clean + '\n')
+        if anchored:            # the parser receives the clean text (up to a final newline): the value it was emitted from
+            exp, how = cs.canon_doc(c.doc), 'value the text was emitted from'
+        else:                   # otherwise: whatever the parser makes of the model's string, handed over verbatim through --file
+            ok2, exp = reader_import(sb, f'm{i}', c.fmt, 'file', c.model.encode('utf-8'), f'{i}m')
+            how = 'import --file of the string the model hands to the parser'
+            if not ok2:
+                exp = 'rejected'
+        imp = got if ok else 'rejected'
+        if imp != exp:
+            bad.append((c, imp, exp, how))
+    nproc = len(sb.log)
+    sb.cleanup()
+    return bad, n, nproc
+
+
+def reader_stream(chk, xvc, model, rinfo, docs, base, shrinkable=True):
+    """the same document texts to the model reader (`pipedata reader`) and to the real one (behind the real parser)"""
+    st = chk.tie['streams'].setdefault('reader', {'cases': 0, 'lines': 0, 'disagreements': 0, 'xvc_processes': 0, 'anchored': 0, 'metamorphic': 0,
+                                                   'model_rejects': 0})
+    groups = []
+    for gi, doc in enumerate(docs):
+        groups.append([ReaderCase(f'g{gi}v{vi}', v, f, ch, data, clean, doc) for vi, (v, f, ch, data, clean) in enumerate(reader_variants(chk.rng, doc))])
+    corpus = [ReaderCase(f'corpus-{n}-{ch}', n, f, ch, data, None, None) for n, f, data in READER_CORPUS for ch in ('stdin', 'file')]
+    groups.append(corpus)
+    allc = [c for g in groups for c in g]
+    lines = [f"{rinfo[c.chan]} {cs.to_stream(c.data)}" for c in allc]
+    rc, ans, err = run_lines(model, ['reader'], lines)
+    if rc != 0 or len(ans) != len(lines):
+        chk.disagreement('reader', [], f'model driver rc={rc}, {len(ans)} answers for {len(lines)} requests', err[-500:], 'process failure')
+        return
+    for c, a in zip(allc, ans):
+        c.model = cs.from_stream(a)
+        st['lines'] += 1
+        chk.count(f'reader:{c.variant}:{c.fmt}:{c.chan}')
+        if c.model is None: st['model_rejects'] += 1
+        elif c.clean is not None and c.model in (c.clean, c.clean + '\n'): st['anchored'] += 1
+        else: st['metamorphic'] += 1
+        if c.doc is not None and any(cs.has_blank(x) for k, x in cs.doc_strings(c.doc)):
+            chk.count(f'reader-doc-with-blank-line:{c.fmt}:{c.chan}')
+    res = pc.pmap(lambda g: reader_eval(xvc, base, g[1], g[0]), list(enumerate(groups)))
+    first = None
+    for bad, n, nproc in res:
+        st['cases'] += n
+        chk.evaluations += n
+        st['xvc_processes'] += nproc
+        st['disagreements'] += len(bad)
+        if bad and first is None:
+            first = bad[0]
+    if first is None:
+        return
+    c, imp, exp, how = first
+    if shrinkable and c.doc is not None and c.variant == 'clean':
+        c, imp, exp, how = shrink_reader_case(chk, xvc, model, rinfo, base, c, (imp, exp, how))
+    chk.disagreement('reader', c.enc(), imp, {'string handed to the parser': c.model, 'expected import': exp, 'expectation from': how},
+                     f'channel {c.chan} ({rinfo[c.chan]} in the model), variant {c.variant}')
+
+
+def shrink_reader_case(chk, xvc, model, rinfo, base, c, info):
+    """smaller schema value whose emitted text still disagrees (block scalars forced, so the text keeps its line structure)"""
+    import random
+    t0, rounds, cur = time.time(), 0, c.doc
+    while time.time() - t0 < 45 and rounds < 40:
+        rounds += 1
+        sc = {'id': 'r', 'ops': [('inject', 'x', cur)]}
+        cands = [ops[0][2] for ops in doc_candidates(sc)][:48]
+        cases = []
+        for i, d in enumerate(cands):
+            t = cs.emit_yaml(d, random.Random(i), block=1.0) if c.fmt == 'yaml' else json.dumps(d, indent=1)
+            cases.append(ReaderCase(f'{c.cid}s{rounds}_{i}', 'clean', c.fmt, c.chan, t.encode(), t, d))
+        if not cases:
+            break
+        rc, ans, err = run_lines(model, ['reader'], [f"{rinfo[x.chan]} {cs.to_stream(x.data)}" for x in cases])
+        if rc != 0 or len(ans) != len(cases):
+            break
+        for x, a in zip(cases, ans):
+            x.model = cs.from_stream(a)
+        chunks = [cases[i::8] for i in range(8) if cases[i::8]]
+        res = pc.pmap(lambda g: reader_eval(xvc, base, g[1], f's{rounds}_{g[0]}'), list(enumerate(chunks)))
+        hits = [b for bad, n, nproc in res for b in bad]
+        if not hits:
+            break
+        hits.sort(key=lambda b: len(b[0].data))
+        c, info = hits[0][0], hits[0][1:]
+        cur = c.doc
+    return (c,) + tuple(info)
+
+
 def run(chk: Check):
     quick = chk.tier == 'quick'
     model = chk.lean('XvcPipeData', 'XvcPipeData.Props.C14', exe='pipedata',
-                     extra_modules=['XvcPipeData.Schema', 'XvcPipeData.SchemaLemmas', 'XvcPipeData.SchemaReach'])
+                     extra_modules=['XvcPipeData.Schema', 'XvcPipeData.SchemaLemmas', 'XvcPipeData.SchemaReach', 'XvcPipeData.Reader',
+                                    'XvcPipeData.ReaderLemmas'])
     MODEL[0] = model if model and os.path.exists(model) else None
     xvc = chk.build_xvc()
     chk.trusted_base += [
         'lib/pipe_common.py: anchored reader of enum-variant / struct-field declaration order (the derive(Ord) the model abstracts as `TotalOrd`) and the rank it computes for each dependency',
         'lib/c14.py: scenario generator, canonicaliser of `xvc pipeline export` JSON into the driver\'s schema line, raw-text comparison modulo the name line',
-        'modelled, not verified: serde / serde_json / serde_yaml encoders and decoders (exercised differentially only: level partial), derive(Ord) on XvcDependency/XvcOutput assumed a total order consistent with Eq, XvcEntity order = counter order (C08_gen_unique), HashMap iteration order = arbitrary permutation',
+        'lib/c14_strings.py: string / document generators, the independent JSON and YAML emitters of the reader stream (literal block scalars with explicit indentation indicator, double-quoted scalars), bytes <-> `Sym` stream (Python\'s UTF-8 decoder), anchored reader of cmd_import\'s input handling',
+        'modelled, not verified: serde / serde_json / serde_yaml encoders and decoders applied to ONE string (exercised differentially only: level partial) - what xvc does to the document text before the parser is modelled (Reader.lean) and tied; derive(Ord) on XvcDependency/XvcOutput assumed a total order consistent with Eq; XvcEntity order = counter order (C08_gen_unique); HashMap iteration order = arbitrary permutation',
     ]
     chk.assumptions += [
         'entities of one repository are ordered by their counter and every key in use is below the counter (hypothesis GenFresh; C08)',
         'pipeline names are unique (hypothesis UniqueNames, an invariant of new/import/step commands: C14_reachable_invariants; `pipeline update --rename` onto an existing name is outside the property and not generated)',
-        'pipeline names in the generated cases contain no newline; step names, commands, paths, globs, regexes and queries are arbitrary UTF-8 without NUL',
+        'pipeline names in the generated cases contain no newline; step names, commands, paths, globs, regexes, queries, parameter keys and values, recorded lines are arbitrary UTF-8 (NUL only in injected documents)',
+        'reader theorems: the input is a sequence of well-formed UTF-8 scalars and ill-formed bytes, 0x0A is never part of either kind of multi-byte unit; I/O errors other than InvalidData are not modelled (observed: a persistent read error on stdin, e.g. a directory, makes the `input.lines()` loop spin forever)',
+        'every text `xvc pipeline export` writes is free of "\\r\\n" (both encoders escape CR; counted on every export of the run as export-text:*), YAML exports end with a newline',
     ]
     try:
         order = pc.extract_order(REPO)
@@ -745,42 +1288,100 @@ def run(chk: Check):
             chk.proof['broken'].append({'stage': 'translator', 'errors': [f'export.rs no longer contains the sorts the model transcribes: {order["export_sorts"]}']})
     else:
         order = FALLBACK_ORDER
-    nstatic, nrun = (40, 24) if quick else (300, 160)
-    chk.extra['rule'] = (f'{nstatic} generated repositories that are never run (1-3 pipelines incl. `default`, 0-4 steps each, names/commands/paths from pools with '
-                         'quotes, newlines, CR, tabs, non-ASCII, YAML-significant tokens; all 11 offline dependency kinds, 3 output kinds, 3 --when modes; step update / '
-                         f'remove / re-create; refused commands) + {nrun} repositories whose pipelines are executed first (recorded metadata, digests, item maps, '
-                         'param values from yaml/json/toml, sqlite query digests); in each 1-3 export->import->export round trips (json|yaml, --file|stdin), '
-                         'refusal probes and --overwrite imports (also onto the exported pipeline itself), pipeline delete. Non-trivial: a scenario with an accepted round trip of a '
-                         'pipeline that has steps; distinct by op list.')
+    try:
+        rinfo = cs.extract_reader(REPO)
+    except cs.ReaderTieBroken as e:
+        chk.proof['broken'].append({'stage': 'translator', 'errors': [str(e)]})
+        rinfo = {'file': 'file', 'stdin': 'stdin', 'read': {}}
+    chk.extra['reader'] = rinfo
+    nstatic, nrun, ncli, nlines, ndoc, nreader = (32, 20, 24, 8, 28, 24) if quick else (300, 160, 160, 50, 200, 160)
+    chk.extra['rule'] = (f'corpus (seeded C14-1 minimised: blank line in a step / generic command; blank lines at the ends; a document with blank lines in every '
+                         f'string field; stdout-keep-scalar; non-finite TOML) first; then {nstatic} generated repositories that are never run (1-3 pipelines incl. `default`, '
+                         '0-4 steps each, names/commands/paths from pools with quotes, newlines, CR, tabs, non-ASCII, YAML-significant tokens; all 11 offline dependency '
+                         f'kinds, 3 output kinds, 3 --when modes; step update / remove / re-create; refused commands) + {nrun} repositories whose pipelines are executed '
+                         f'first (recorded metadata, digests, item maps, param values from yaml/json/toml, sqlite query digests) + {ncli} pipelines built on the command '
+                         f'line with every string field from the structured string generator + {nlines} executed pipelines recording generated lines + {ndoc} repositories '
+                         'brought into a generated state by importing a generated JSON document (all 12 dependency kinds with all fields, strings of arbitrary content in '
+                         'every string field); in each 1-5 export->import->export round trips (json|yaml, --file|stdin|stdout-to-stdin pipe), refusal probes and '
+                         f'--overwrite imports (also onto the exported pipeline itself), pipeline delete; reader stream: {nreader} generated values emitted as YAML / JSON '
+                         'texts (clean, CRLF, no final newline, a line that is not UTF-8) to the model reader and to the real import. Non-trivial: a scenario with an '
+                         'accepted round trip of a pipeline that has steps; distinct by op list.')
     base = os.path.join(chk.scratch, 'repos')
     os.makedirs(base, exist_ok=True)
     pc.load_proposed(chk, PROPOSED_FINDINGS)
+    # ---- corpus first
     corpus_nonfinite(chk, xvc, base)
-    scs = [gen_scenario(chk.rng, i, False) for i in range(nstatic)] + [gen_scenario(chk.rng, nstatic + i, True) for i in range(nrun)]
-    bad = []
-    for i in range(0, len(scs), 64):
-        bad += judge(chk, run_scenarios(chk, xvc, MODEL[0], scs[i:i + 64], order, base))
+    corpus_stdout_keep(chk, xvc, base)
+    bad = judge(chk, run_scenarios(chk, xvc, MODEL[0], corpus_scenarios(), order, base))
+    bad += judge_docs(chk, run_scenarios(chk, xvc, None, corpus_doc_scenarios(order), order, base))
+    # ---- generated
+    n0 = 0
+    scs = [gen_scenario(chk.rng, n0 + i, False) for i in range(nstatic)]; n0 += nstatic
+    scs += [gen_scenario(chk.rng, n0 + i, True) for i in range(nrun)]; n0 += nrun
+    scs += [gen_cli_strings(chk.rng, n0 + i) for i in range(ncli)]; n0 += ncli
+    scs += [gen_lines_run(chk.rng, n0 + i) for i in range(nlines)]; n0 += nlines
+    docs = [gen_doc_scenario(chk.rng, n0 + i, order) for i in range(ndoc)]
+    if not bad:          # a corpus failure is the answer; the generated stream would only repeat it
+        for i in range(0, len(scs), 64):
+            bad += judge(chk, run_scenarios(chk, xvc, MODEL[0], scs[i:i + 64], order, base))
+        for i in range(0, len(docs), 64):
+            bad += judge_docs(chk, run_scenarios(chk, xvc, None, docs[i:i + 64], order, base))
     if MODEL[0] is None:
         chk.notes.append('model driver did not build; only the implementation-side oracle ran')
+    else:
+        rdocs = [sc['ops'][0][2] for sc in docs[:nreader]]
+        rdocs += [cs.gen_doc(chk.rng, order, 'x') for _ in range(nreader - len(rdocs))]
+        reader_stream(chk, xvc, MODEL[0], rinfo, rdocs, base)
+    report(chk, xvc, order, base, bad)
+    return chk.finish()
+
+
+def report(chk, xvc, order, base, bad):
+    """minimise and record at most one failure per (kind, signature kind)"""
     seen = set()
     for kind, sc, info in bad:
-        want = signature([f['what'] for f in info], sc)['kind'] if kind == 'oracle' else info['line'].split(' ')[0]
+        want = signature([f['what'] for f in info], sc)['kind'] if kind == 'oracle' else ('inject' if kind == 'inject' else info['line'].split(' ')[0])
         key = (kind, want)
         if key in seen or len(seen) >= 4:
             continue
         seen.add(key)
-        small = minimise(chk, xvc, order, base, sc, kind, want)
+        is_doc = sc['ops'] and sc['ops'][0][0] == 'inject'
+        if is_doc:
+            def fails_many(cands, kind=kind, want=want):
+                try:
+                    res = run_scenarios(chk, xvc, None, cands, order, base)
+                except Exception:
+                    return [False] * len(cands)
+                out = []
+                for sc_, r, m, got in res:
+                    if kind == 'oracle':
+                        out.append(bool(r.oracle) and signature([f['what'] for f in r.oracle], sc_)['kind'] == want)
+                    else:
+                        inj = next((o for k, *o in r.trace if k == 'inject'), None)
+                        try:
+                            out.append(inj is not None and inj[0] == 0 and cs.canon_doc(json.loads(inj[1])) != cs.canon_doc(sc_['ops'][0][2]))
+                        except (TypeError, ValueError):
+                            out.append(False)
+                return out
+            small = minimise_doc(chk, xvc, order, base, sc, fails_many)
+        else:
+            small = minimise(chk, xvc, order, base, sc, kind, want)
         res = run_scenarios(chk, xvc, MODEL[0] if kind == 'tie' else None, [small], order, base)[0]
         case = {'id': small['id'], 'runnable': small['runnable'], 'git': small['git'], 'ops': [enc_op(o) for o in small['ops']]}
+        if small.get('keep_region'):
+            case['keep_region'] = True
         if kind == 'oracle':
             fl = res[1].oracle or info
             chk.oracle_failure(fl[0]['what'], case, {'all': fl[:4]}, signature=signature([f['what'] for f in fl], small))
+        elif kind == 'inject':
+            inj = next((o for k, *o in res[1].trace if k == 'inject'), [None, None])
+            chk.disagreement('inject', case, (inj[1] or '')[:3000], json.dumps(cs.canon_doc(small['ops'][0][2]), ensure_ascii=False)[:3000],
+                             'minimised; exporting a freshly imported document does not give the document back (C14_import_export), modulo name and list order')
         else:
             exp = res[2].expected(res[1])
             d = next(((i, e, g) for i, (e, g) in enumerate(zip(exp, res[3] or [])) if e is not None and e != g), None)
             chk.disagreement('schema', case, d[1] if d else info['implementation'], d[2] if d else info['model'],
                              f"minimised; driver line: {res[2].lines()[d[0]] if d else info['line']}")
-    return chk.finish()
 
 
 FALLBACK_ORDER = {'dep_variants': list(pc.DEP_STRUCTS), 'dep_fields': {k: v[2] for k, v in pc.DEP_STRUCTS.items()},
@@ -802,10 +1403,10 @@ def replay(chk: Check, data):
         if isinstance(c, list):            # corpus case
             corpus_nonfinite(chk, xvc, base)
             continue
-        sc = {'id': c['id'], 'runnable': c['runnable'], 'git': c['git'], 'ops': [dec_op(o) for o in c['ops']]}
+        sc = {'id': c['id'], 'runnable': c['runnable'], 'git': c['git'], 'ops': [dec_op(o) for o in c['ops']], 'keep_region': c.get('keep_region', False)}
         sc_, r, m, got = run_scenarios(chk, xvc, None, [sc], order, base)[0]
         chk.evaluations += 1
-        print('ops:'); [print('  ', enc_op(o)) for o in sc['ops']]
+        print('ops:'); [print('  ', json.dumps(enc_op(o), ensure_ascii=False)[:2000]) for o in sc['ops']]
         print('oracle:', [x['what'] for x in r.oracle] or 'property holds on this input')
         if r.oracle:
             chk.oracle_failure(r.oracle[0]['what'], c, {'all': r.oracle[:4]}, signature=signature([x['what'] for x in r.oracle], sc))
